@@ -119,7 +119,7 @@ fn wf_line(w: &WReq, body: &[u8]) -> String {
 /// malformed / random header blocks: mutations of well-formed ones and token soups
 fn gen_malformed(rng: &mut Rng) -> Vec<u8> {
     let mut h = gen_wreq(rng, None, None).header;
-    match rng.below(9) {
+    match rng.below(10) {
         0 => { let k = rng.below(h.len() as u64) as usize; h[k] = rng.next() as u8; }
         1 => { let k = rng.below(h.len() as u64) as usize; h.remove(k); }
         2 => { let k = rng.below(h.len() as u64 + 1) as usize; h.insert(k, *rng.pick(&[b' ', b':', b'[', b']', b'/', b'\r', b'\n', b'+', b'?', 0xC2, 0xA0, b'\t', b'@'])); }
@@ -138,6 +138,21 @@ fn gen_malformed(rng: &mut Rng) -> Vec<u8> {
             let a = rng.pick(auths);
             let s = match rng.below(3) { 0 => format!("CONNECT {a} HTTP/1.1\r\n\r\n"), 1 => format!("GET http://{a}/x HTTP/1.1\r\n\r\n"), _ => format!("GET /x HTTP/1.1\r\nHost: {a}\r\n\r\n") };
             h = s.into_bytes();
+        }
+        8 => {
+            // multi-byte characters at every small offset of a header line / of the request line (byte-offset slicing)
+            let ch = *rng.pick(&["\u{e9}", "\u{20ac}", "\u{1f600}", "\u{a0}", "\u{3000}"]);
+            let off = rng.below(9) as usize;
+            let base = *rng.pick(&["Host: example.com", "To: equipe", "abcdefghij", "X-A:5", "hOsT:h", "Ho", ""]);
+            let mut line: String = base.chars().take(off).collect();
+            line.push_str(ch);
+            line.extend(base.chars().skip(off));
+            h = match rng.below(4) {
+                0 => format!("GET / HTTP/1.1\r\n{line}\r\nHost: h\r\n\r\n"),
+                1 => format!("GET http://h/ HTTP/1.1\r\n{line}\r\n\r\n"),
+                2 => format!("GET / HTTP/1.1\r\nHost: h\r\n{line}\r\n\r\n"),
+                _ => format!("{line} http://h{ch}/{ch} HTTP/1.1\r\nHost: {line}\r\n\r\n"),
+            }.into_bytes();
         }
         7 => {
             let rl: &[&str] = &["GET", "GET ", " GET / HTTP/1.1", "GET /", "GET / HTTP/1.1 extra", "GET\t/\tHTTP/1.1", "", "GET\u{a0}http://h/\u{2003}HTTP/1.1", "GET http:// HTTP/1.1", "GET https://:443 HTTP/1.1", "GET http://h HTTP/1.1", "GET HTTP://h/ HTTP/1.1", "OPTIONS * HTTP/1.1", "GET x HTTP/1.1"];
@@ -160,7 +175,13 @@ fn read_case(rng: &mut Rng) -> String {
         3 => { let k = stream.len() - rng.range(1, 4) as usize; stream.truncate(k); if rng.chance(1, 2) { let n = rng.range(1, 3000) as usize; stream.extend(std::iter::repeat(b'x').take(n)); } }
         _ => { let n = rng.range(1, 1024) as usize; stream.extend(std::iter::repeat(b'B').take(n)); }
     }
-    format!("http read {}", hex_compact(&stream))
+    let split = if rng.chance(1, 3) {
+        // cut inside or next to the terminator, or anywhere
+        let end = stream.windows(4).position(|w| w == b"\r\n\r\n").map(|p| p + 4).unwrap_or(stream.len());
+        let a = if rng.chance(2, 3) { end.saturating_sub(rng.range(0, 5) as usize).max(1) } else { rng.range(1, stream.len() as u64) as usize };
+        format!(" split={a}")
+    } else { String::new() };
+    format!("http read {}{}", hex_compact(&stream), split)
 }
 
 impl Group for HttpGroup {
@@ -198,6 +219,21 @@ impl Group for HttpGroup {
                 v.push(Case { lines: vec![format!("http read {}", hex_compact(&s))] });
             }
         }
+        // the terminator cut at each of its positions by TCP segmentation, small and large blocks
+        for total in [60usize, 1500, 3000] {
+            let w = gen_wreq(&mut rng, Some(("example.com", false, None)), Some(total)).header;
+            for back in 0..6usize {
+                let mut sd = w.clone(); sd.extend_from_slice(b"BODY");
+                v.push(Case { lines: vec![format!("http read {} split={}", hex_compact(&sd), w.len() - back)] });
+            }
+            let mut sd = w.clone(); sd.extend_from_slice(b"BODY");
+            v.push(Case { lines: vec![format!("http read {} split={},{}", hex_compact(&sd), w.len() - 3, w.len() - 1)] });
+        }
+        // header blocks of 1024k + {0..4} bytes: the terminator straddles two reads of the 1024-byte buffer
+        for k in [1usize, 2, 3, 7] { for d in 0..5usize {
+            let w = gen_wreq(&mut rng, Some(("example.com", false, None)), Some(1024 * k + d)).header;
+            v.push(Case { lines: vec![format!("http read {}", hex_compact(&w))] });
+        } }
         // the whole front-end: CONNECT / forward, target up / down, early bytes, later bytes, IPv4 and IPv6 origins
         for (up, v6, form, early, later) in [
             ("up", 0, "connect", "-", "-"), ("up", 0, "connect", "48454c4c4f", "-"), ("up", 0, "connect", "-", "6c61746572"), ("up", 0, "connect", "0d0a0d0a01", "02"),
@@ -308,11 +344,20 @@ async fn exec_line(t: &[String]) -> Result<(String, Vec<OracleFail>), String> {
             }
             Ok((obs, fails))
         }
-        ["http", "read", hx] => {
+        ["http", "read", hx] | ["http", "read", hx, _] => {
             let stream = unhex(hx).ok_or("hex")?;
+            // optional `split=a,b`: the stream is written in fragments cut there, each a TCP segment of its own
+            let cuts: Vec<usize> = s.get(3).and_then(|t| t.strip_prefix("split=")).map(|x| x.split(',').filter_map(|k| k.parse().ok()).collect()).unwrap_or_default();
             let (mut c, mut srv) = pair().await;
             let s2 = stream.clone();
-            let wr = tokio::spawn(async move { let _ = c.write_all(&s2).await; let _ = c.shutdown().await; c });
+            let wr = tokio::spawn(async move {
+                let _ = c.set_nodelay(true);
+                let mut at = 0;
+                for k in cuts {
+                    let k = k.min(s2.len());
+                    if k > at { let _ = c.write_all(&s2[at..k]).await; let _ = c.flush().await; tokio::time::sleep(Duration::from_millis(25)).await; at = k; }
+                }
+                let _ = c.write_all(&s2[at..]).await; let _ = c.shutdown().await; c });
             let r = tokio::time::timeout(GUARD, anytls_rs::client::http_proxy::verif_http::read_http_header(&mut srv)).await.map_err(|_| "guard")?;
             let obs = match r {
                 Ok((hd, mut rem)) => {
